@@ -21,5 +21,6 @@ run 51e4ad4 C12 C03
 run 8a60168 C11 C13
 run 74e686c C13
 run 752e9f6 C14
+run c509816 C05
 cat $out
 git -C /repo status --short
